@@ -171,6 +171,7 @@ class AclMachine(Machine):
             share_items=self.prop in ("C15", "C17") and w.random() < 0.25,
             log_level=w.choice(["DEBUG", "WARNING"]),
             boundary_ports=w.random() < (0.3 if self.prop == "C04" else 0.12),
+            version_ports=w.random() < 0.3,
             from_config=w.random() < 0.2,
         )
         bias = BIAS.get(self.prop)
